@@ -47,6 +47,7 @@ type Cut struct {
 	Dir    string `json:"dir"` // "ab" (dialer to acceptor) or "ba"
 	Offset int64  `json:"offset"` // counted from the end of the handshake head (first CRLFCRLF) of that direction
 	Abs    bool   `json:"abs,omitempty"` // Offset counts from the first byte of the direction instead
+	Transient bool `json:"transient,omitempty"` // the error is reported once, then the stream carries on (a deadline that expired and was extended)
 	Style  int    `json:"style"` // fEOF, fEOFBytes, fErr, fErrBytes, fTimeout, fTimeoutBytes
 }
 
@@ -977,6 +978,9 @@ func (s *Sim) applyRead(r *parkRec, now time.Duration) {
 			} else {
 				r.fault = 0
 			}
+			if q.cut.Transient {
+				q.cut = nil
+			}
 			return
 		}
 		if int64(avail) >= left {
@@ -992,6 +996,9 @@ func (s *Sim) applyRead(r *parkRec, now time.Duration) {
 				r.resErr = cutErr(q.cut.Style)
 				r.fault = q.cut.Style
 				q.cutDone = true
+				if q.cut.Transient {
+					q.cut = nil
+				}
 			}
 			return
 		}
